@@ -318,10 +318,11 @@ _CONC_RULE = ("conc suite: real goroutines on client.Client over a connection mo
               "three pieces and yields in between): sendmix (4 goroutines x 12 sends of 1..9 KiB, no ack), sendack (with acks; the "
               "peer acknowledges every complete message), hsmix (senders with ack while another goroutine runs Handshake and "
               "TransportPhase), lifecycle (6 goroutines x 200 random Connect/Disconnect/Reconnect/TransportPhase/Send), hsrace "
-              "(honest handshakes while others poll TransportPhase); judged on the recorded wire (a concatenation of complete, "
+              "(honest handshakes while others poll TransportPhase), helpermix (SendMessage / SendForward / SendPackedFromBytes / SendRaw "
+              "from 4 goroutines, payloads 40 B .. 140 KB around 2 KiB / 4 KiB / 64 KiB); judged on the recorded wire (a concatenation of complete, "
               "unmixed encodings, every successful send exactly once), on dial/close accounting and under the race detector. "
               "distinct = distinct (scenario, seed); non-trivial = every run")
-_CONC_SUITE = dict(suite='conc', n=dict(quick=10, thorough=200), shards=dict(quick=1, thorough=8), trivial=r'^-$')
+_CONC_SUITE = dict(suite='conc', n=dict(quick=12, thorough=240), shards=dict(quick=1, thorough=8), trivial=r'^-$')
 _CONC_ASSUME = ["the translator is trusted for the shape of the control-flow graph (which statements are lock operations, accesses, calls; "
                 "their order and branching); its lockset annotations are not trusted: FV.Lk.check re-validates them in the kernel",
                 "sync.Mutex / sync.RWMutex: standard exclusion, no fairness assumed; 'data race' = two goroutines enabled at conflicting accesses"]
@@ -491,3 +492,30 @@ TECHNIQUE = {
 }
 for _k, _v in TECHNIQUE.items():
     PROPS[_k]['technique'] = _v
+
+# C01 also covers what the packed constructors put into the stream they later round-trip: histories incl. failed calls
+PROPS['C01']['suites'] = PROPS['C01']['suites'] + [_PACKED_SUITES[0]]
+PROPS['C01']['rule'] = PROPS['C01']['rule'] + ' || ' + _PACKED_RULE
+
+# C04: the id a RawMessage send waits for is GetChunk's result; its stability is checked by the chunk suite
+PROPS['C04']['suites'] = PROPS['C04']['suites'] + [_CHUNK_SUITE]
+PROPS['C04']['rule'] = PROPS['C04']['rule'] + ' || chunk suite (GetChunk on valid, alternative and mutated inputs; the returned string is re-read after later calls)'
+
+# C06 under concurrency ("nothing is written to a connection after the client closed or replaced it"): the lock discipline
+# of the regenerated graph (every use of the connection under the send mutex + shared session lock, or the exclusive session
+# lock) and the concurrent lifecycle scenario
+PROPS['C06']['translator'] = True
+PROPS['C06']['lean_modules'] = PROPS['C06']['lean_modules'] + ['FluentVerif.Conc.Lockset', 'FluentVerif.Tie.Conc']
+PROPS['C06']['theorems'] = PROPS['C06']['theorems'] + ['FV.Lk.check_sound', 'FV.Tie.client_lockset', 'FV.Tie.C14_race_free', 'FV.Tie.C08_wire_under_mutex']
+PROPS['C06']['suites'] = PROPS['C06']['suites'] + [_CONC_SUITE]
+PROPS['C06']['race_suites'] = [('conc', dict(quick=4, thorough=40))]
+PROPS['C06']['rule'] = PROPS['C06']['rule'] + ' || ' + _CONC_RULE
+PROPS['C06']['assumptions'] = PROPS['C06']['assumptions'] + _CONC_ASSUME
+PROPS['C06']['technique'] = _T_SEQ + '; concurrency half: ' + _T_CONC
+
+# C07: constructors hand out independent values (incl. the handshake constructors)
+_INDEP_SUITE = dict(suite='indep', n=dict(quick=600, thorough=20000), shards=dict(quick=1, thorough=4), trivial=r'^-$')
+PROPS['C07']['suites'] = PROPS['C07']['suites'] + [_INDEP_SUITE]
+PROPS['C07']['rule'] = PROPS['C07']['rule'] + (' || indep suite: for the constructors NewHelo(nil), NewPing, NewPong, NewPackedForwardMessage, '
+    'NewCompressedPackedForwardMessage, NewForwardMessage, NewMessage: two values from the same arguments, the first then decoded into / '
+    'given a chunk id; the second and a third built afterwards must be unaffected')
